@@ -69,6 +69,30 @@ def trace_stats(work):
     return st
 
 
+def free_running(res, exe):
+    """the same program and oracle on real workers, without the controller: many rounds, with extra threads
+    that only yield, so that yielding / blocked participants really migrate between workers"""
+    shapes = [(6, 6, 20000, 6), (3, 4, 20000, 2), (2, 2, 30000, 1), (4, 1, 2000, 2), (8, 8, 10000, 0), (2, 5, 20000, 3)]
+    if res.tier == "thorough":
+        shapes = shapes * 5
+    rng = common.Splitmix(res.seed * 31 + 7)
+    done = 0
+    for (w, n, r, noise) in shapes:
+        ps = rng.below(1 << 30) + 1
+        args = [w, n, r, ps, 1, noise]
+        rc, out, err = common.sh([exe] + [str(a) for a in args], timeout=60)
+        done += 1
+        if rc == 0 and "RESULT ok" in out:
+            continue
+        what = "hang (no result within 60 s)" if rc == -9 else ((out.strip().splitlines() or [""])[-1] or ("crash rc=%s %s" % (rc, err.strip()[-200:])))
+        rp = common.write_replay("C06", "stress.txt", "barrier_prog %s\n# free running (no controller): %d workers, %d participants, %d rounds, %d yielding bystanders\n%s\n" % (
+            " ".join(map(str, args)), w, n, r, noise, what))
+        res.violations.append((rp, True, "free-running barrier stress with %d workers, N=%d, %d rounds, %d yielding bystanders: %s" % (w, n, r, noise, what)))
+        break
+    res.add_cases(done, done, [], rule="C06/free running: barrier_prog W N R PSEED 1 NOISE on real workers without the controller (per-round arrival counters, serial count, join values; hang = 60 s timeout); every run counts")
+    res.notes["free_running_runs"] = done
+
+
 def run(res):
     common.prove(res, drivers=["barrier"])
     n = 300 if res.tier == "quick" else 3000
@@ -76,6 +100,8 @@ def run(res):
                                 workers_note=", W in 1..3 workers, N in 1..6 participants x up to 5 consecutive rounds on one barrier, racers re-entering immediately")
     if out:
         res.notes["barrier_trace_distribution"] = trace_stats(out["work"])
+    if out and not res.violations:
+        free_running(res, out["exe"])
     if res.breaks and not res.violations:
         sched_common.search_more(res, "C06", "barrier_prog", variants(res.seed + 1), 300)
     res.assumptions += [
@@ -87,4 +113,21 @@ def run(res):
 
 
 def replay(path):
+    if os.path.isfile(path) and path.endswith("stress.txt"):
+        args = open(path).readline().split()[1:]
+        exe, err = sched_common.build_prog("barrier_prog")
+        if err:
+            print(err)
+            return 2
+        bad = 0
+        for _ in range(5):
+            rc, out, e = common.sh([exe] + args, timeout=60)
+            print(out.strip() or ("rc=%s" % rc))
+            if rc != 0 or "RESULT ok" not in out:
+                bad += 1
+        if bad:
+            print("VIOLATION property=C06 replay=%s" % path)
+            return 1
+        print("no violation on replay (5 free runs)")
+        return 0
     return sched_common.replay("C06", path)
